@@ -19,6 +19,10 @@ func (m *Group) GetSigningPrivKey() (crypto.PrivKey, error) {
 		return nil, errcode.ErrCode_ErrMissingInput
 	}
 
+	if len(m.Secret) != ed25519.SeedSize {
+		return nil, errcode.ErrCode_ErrInvalidInput
+	}
+
 	edSK := ed25519.NewKeyFromSeed(m.Secret)
 
 	sk, _, err := crypto.KeyPairFromStdKey(&edSK)
